@@ -272,6 +272,29 @@ def G3(ctx: Ctx) -> RuleResult:
                             if enum in repr(it) and '__members__' in repr(it) and comp.elt == _Attr(each, 'value') and len(ifs) == 1 \
                                     and isinstance(ifs[0], _Op) and ifs[0].op == '==' and set(ifs[0].args) == {_Attr(each, 'token'), op}:
                                 found = True
+        if not found:
+            # a token -> definition table built from the members, looked up with the lexeme: after folding, one path per
+            # member with the guard `op == <its token>` returning <its value>
+            from .terms import Const as _Const, EnumMember as _EM, expand_outcomes as _xo
+            eci = ctx.model.cls(enum, 'G3')
+            rows_ = {}
+            for o in _xo(outs):
+                if o.kind != 'return':
+                    continue
+                from .terms import reduce_guards as _rg
+                for t, pol in _rg(o.guards):
+                    if pol and isinstance(t, _Op) and t.op == '==' and op in t.args:
+                        other = [a for a in t.args if a != op][0]
+                        if isinstance(other, _Const):
+                            rows_[other.value] = o.value
+            want_ = {}
+            for mname in eci.enum_members:
+                v_ = ctx.ev.enum_value(_EM(enum, mname), 0)
+                tok_ = v_.get('token') if hasattr(v_, 'get') else None
+                if isinstance(tok_, _Const):
+                    want_[tok_.value] = v_
+            if want_ and all(rows_.get(k) == v for k, v in want_.items()):
+                found = True
         if found and raises:
             r.ok(f'{fn}: member whose token equals the lexeme -> its definition; ValueError otherwise')
         else:
